@@ -397,3 +397,16 @@ package packfile
 //gvc:  loop 2 invariant pos: it2 >= 0
 //gvc:  ensures empty: err == ErrEmptyPackfile ==> p.scanner.offset == 0 || lastres("Error") == ErrEmptyPackfile || calls("resolveDeltas") >= 1
 //gvc:end
+
+// parentReader (C09: a delta whose declared source size differs from its base
+// is a structural error): the applier compares the declared source size with
+// the base only when the base is a *bytes.Reader (a type assertion in
+// patchDeltaWriter), so every base the parser hands to it is one.
+//gvc:func (*Parser).parentReader
+//gvc:  props C09
+//gvc:  theory int
+//gvc:  opt coarse
+//gvc:  opt frame args
+//gvc:  results rd err
+//gvc:  ensures concrete: err == nil ==> typeis(rd, "bytes.Reader")
+//gvc:end
